@@ -13,7 +13,14 @@ C = {
  "C04": ("model_checking", "TLC branches a Crash action at the end of every fsync epoch of every recorded execution over the per-block subsets of un-synced metadata-relevant requests and evaluates Safe(image) (Inv_C04) on every distinct crash image.", "7 C04"),
  "C05": ("model_checking", "Same crash branching; Inv_C05: on every crash image the spec's reader returns, per guest block, the value at the last sync point (flush_meta Ok then fsync_range Ok) or the value of a later operation.", "7 C05"),
  "C06": ("model_checking", "Groups of overlapping calls under seeded random/PCT schedules owned by the deterministic executor; TLC searches placements of per-block linearization points (silent LinOther steps) that explain every Ret; final sweeps, flush and reopen sweeps must equal the linearized FlatDisk.", "7 C06"),
+ "C07": ("model_checking", "Groups of 2-5 overlapping calls with 2-slice caches under seeded random/PCT schedules; the deterministic executor detects deadlock (unfinished tasks, nothing runnable, nothing in flight) and livelock (step budget), panics are caught as events; Inv_C07a (no Stuck/Panic) and Inv_C07b (Err only for invalid arguments or a backend fault) on every recorded execution.", "7 C07"),
+ "C10": ("model_checking", "Partial/straddling writes over backing-provided and compressed clusters of independently built chains; FlatDisk initial content = builder ground truth of the chain, so the COW merge is checked by Inv_C01/C02; Inv_C10 forbids any non-read request on read-only devices; exact release of compressed clusters is Inv_C03 after flush.", "7 C10"),
+ "C11": ("model_checking", "discard over (offset, len) classes x cluster states x with/without backing; the FlatDisk model applies the C11 contract by cluster kind; sweeps after every discard, Inv_C03 after flush (space released), reopen sweep.", "7 C11"),
+ "C12": ("model_checking", "Histories crossing refblock capacity (64-bit refcounts x 512-byte clusters), images with fewer L1 entries than needed, allocations across refblock-slice boundaries; C01-C05 invariants incl. crash branching on those executions.", "7 C12"),
+ "C13": ("model_checking", "spec/GenArgs.tla enumerates op x offset class x length class exhaustively; classes are instantiated with concrete u64 values per geometry and device mode; Validate.tla decides the admissible outcome; Inv_C13 forbids modifying requests during rejected calls; sweeps check content is unchanged; panics are violations.", "7 C13"),
  "C16": ("model_checking", "Inv_C16 on every backend request event of every recorded execution (offset, length and buffer address modulo block size).", "7 C16"),
+ "C17": ("fault_enumeration", "For each history one run per backend request index (read/write/punch/fsync, every third a partial write), one with all requests failing, one with hole punching unsupported; then recovery by repeated flush_meta, sweep, reopen, sweep. TLC: failed calls may or may not have taken effect (set-valued FlatDisk), Inv_C07a/b, Inv_C17 (after recovery Safe and every acknowledged write readable).", "7 C17"),
+ "C18": ("model_checking", "need_flush_meta() sampled by the executor after every scheduler step; Inv_C18 at every quiescent point with the flag clear (file content = FlatDisk, image safe) on schedules overlapping writers/discarders with flush_meta/shrink_caches; violations count only on accepting (consistently linearized) paths.", "7 C18"),
 }
 checks = []
 for pid, (cat, text, ref) in sorted(C.items()):
